@@ -75,11 +75,18 @@ CONSTANTS Years, Doys, Millis, Micros
 VARIABLES inst, pc
 vars == <<inst, pc>>
 Instants == UNION { { [y |-> y, doy |-> d, ms |-> ms, us |-> us] : d \in { x \in Doys : x <= DaysInYear(y) }, ms \in Millis, us \in Micros } : y \in Years }
+\* the instant dms milliseconds later (dms < one day): the millisecond of day wraps and the day number advances; a day past the
+\* last day of the year is day 1 of the next year
+Later(i, dms) == LET tot == i.ms + dms
+                     dn  == DayNumber(i.y, i.doy) + tot \div 86400000
+                     y2  == IF dn < DaysBeforeYear(i.y) + DaysInYear(i.y) THEN i.y ELSE i.y + 1
+                 IN  [y |-> y2, doy |-> dn - DaysBeforeYear(y2) + 1, ms |-> tot % 86400000, us |-> i.us]
 Init == inst \in Instants /\ pc = "encode"
 Encoded(i) == [ y |-> i.y, doy |-> i.doy, ms |-> i.ms, us |-> i.us,
                 month |-> MonthOf(i.y, i.doy), day |-> DayOf(i.y, i.doy),
                 daynumber |-> DayNumber(i.y, i.doy),
                 hh |-> i.ms \div 3600000, mm |-> (i.ms \div 60000) % 60, ss |-> (i.ms \div 1000) % 60, mmm |-> i.ms % 1000,
+                later2s |-> Later(i, 2000),      \* a second line of the same request, 2 s later (may be the next day / year)
                 date_text |-> [st \in DateStyles |-> Join(DateText(st, i.y, MonthOf(i.y, i.doy), DayOf(i.y, i.doy)))] ]
 Step == pc = "encode" /\ pc' = "done" /\ UNCHANGED inst
 Next == Step \/ (pc = "done" /\ UNCHANGED vars)
@@ -98,6 +105,13 @@ CompactRoundTrip  == LET e == Encoded(inst)
                      IN /\ Len(t2) = 16 /\ Len(t3) = 17
                         /\ ParseCompact(t2, 2).us = (e.mmm \div 10) * 10000 /\ ParseCompact(t3, 3).us = e.mmm * 1000
                         /\ ParseCompact(t3, 3).d = e.day /\ ParseCompact(t3, 3).m = e.month /\ ParseCompact(t2, 2).ss = e.ss
+\* two lines of one request that straddle midnight: the later one is on the next day (day 1 of the next year after the last day),
+\* its millisecond of day starts again; otherwise both are on the same day
+Rollover == LET n == Later(inst, 2000)
+            IN  /\ n.doy \in 1..DaysInYear(n.y) /\ n.ms \in 0..86399999
+                /\ (DayNumber(n.y, n.doy) - DayNumber(inst.y, inst.doy)) * 86400000 + n.ms - inst.ms = 2000   \* (TLC integers are 32-bit)
+                /\ (inst.ms >= 86398000) <=> (DayNumber(n.y, n.doy) = DayNumber(inst.y, inst.doy) + 1)
+                /\ (inst.ms >= 86398000 /\ inst.doy = DaysInYear(inst.y)) => (n.y = inst.y + 1 /\ n.doy = 1)
 \* NOT an invariant of the family (MC_Calendar_bug expects a violation): the blank-dropping greedy decoder agrees
 GreedyAgrees == LET e == Encoded(inst) IN \A st \in DateStyles : GreedyParse(DateText(st, e.y, e.month, e.day)) = <<e.y, e.month, e.day>>
 =============================================================================
